@@ -189,6 +189,13 @@ Definition styled (elem : string) (text : str) : option str :=
   | None => None
   end.
 
+(* hex_to_rgb(MOLOKAI[STYLES["mcp_connected"][0]]); None = KeyError / ValueError *)
+Definition conn_rgb : option (N * N * N) :=
+  match assoc_gen $"mcp_connected" SL_STYLES with
+  | Some (Some f, _) => match assoc_gen f SL_MOLOKAI with Some [h] => hex_to_rgb h | _ => None end
+  | _ => None
+  end.
+
 (* ================================================================= Part 4 *)
 Definition CHICK : str := [128036; 32].                 (* "🐤 " *)
 Definition BRANCH_GLYPH : str := [9095; 32].            (* "⎇ " *)
@@ -215,6 +222,8 @@ Definition fd_of (v : json) : option N :=
   | JNum false t => if str_eqb t $"1" then Some 1 else if str_eqb t $"2" then Some 2 else None
   | _ => None
   end.
+
+Definition fd_is_stdout (o : option N) : bool := match o with Some n => N.eqb n 1 | None => false end.
 
 Record built := { b_out : res str; b_fd : option N; b_refresh : bool }.
 
@@ -363,10 +372,7 @@ Section Main.
 
   (* get_mcp_servers: None in the first component = an exception escapes (palette lookup) *)
   Definition get_mcp_servers : option (option str) * bool :=
-    match match assoc_gen $"mcp_connected" SL_STYLES with
-          | Some (Some f, _) => match assoc_gen f SL_MOLOKAI with Some [h] => hex_to_rgb h | _ => None end
-          | _ => None
-          end with
+    match conn_rgb with
     | None => (None, false)
     | Some conn =>
         let local_styled := map (fun name => sgr $"38" conn ++ name ++ RESET) o_mcp_local in
@@ -423,6 +429,13 @@ Section Main.
   Definition session_of (data : json) : json :=
     match jget data $"session_id" (JStr []) with Ok v => v | Raise => JStr [] end.
 
+  (* the input makes get_context_from_transcript open - and close - file descriptor 1 *)
+  Definition stdout_hazard (inp : option json) : bool :=
+    match jget (data_of inp) $"transcript_path" (JStr []) with
+    | Ok tp => fd_is_stdout (fd_of tp)
+    | Raise => false
+    end.
+
   Definition NL : str := [10].
 
   (* print(line), then the guard's print("?") if that raised *)
@@ -439,7 +452,7 @@ Section Main.
 
   (* guarded = true: bin/dippy-statusline as it is today (try: main() except Exception: print("?"));
      guarded = false: the entry point before that guard was added *)
-  Definition run (guarded : bool) (inp : option json) : outcome :=
+  Definition sl_main (guarded : bool) (inp : option json) : outcome :=
     let data := data_of inp in
     let sid := session_of data in
     match get_cached sid with
@@ -448,22 +461,17 @@ Section Main.
         let b := build_statusline data in
         match b_out b with
         | Raise =>
-            match b_fd b with
-            | Some 1 => broken SNothing (b_refresh b)
-            | _ =>
-                if guarded then
-                  {| exit_ok := true; out := QMARK ++ NL; traceback := false; served := false;
-                     store := SNothing; refresh := b_refresh b |}
-                else
-                  {| exit_ok := false; out := []; traceback := true; served := false;
-                     store := SNothing; refresh := b_refresh b |}
-            end
+            if fd_is_stdout (b_fd b) then broken SNothing (b_refresh b)
+            else if guarded then
+              {| exit_ok := true; out := QMARK ++ NL; traceback := false; served := false;
+                 store := SNothing; refresh := b_refresh b |}
+            else
+              {| exit_ok := false; out := []; traceback := true; served := false;
+                 store := SNothing; refresh := b_refresh b |}
         | Ok line =>
             let st := set_cache sid line in
-            match b_fd b with
-            | Some 1 => broken st (b_refresh b)          (* stdout was closed under sys.stdout *)
-            | _ => emit guarded line false st (b_refresh b)
-            end
+            if fd_is_stdout (b_fd b) then broken st (b_refresh b)     (* stdout was closed under sys.stdout *)
+            else emit guarded line false st (b_refresh b)
         end
     end.
 End Main.
@@ -497,7 +505,7 @@ Definition files := str -> option str.       (* path -> what was written there *
 Definition fupd (f : files) (p : str) (v : str) : files := fun q => if str_eqb q p then Some v else f q.
 
 Definition invoke (base : str) (f : files) (i : invocation) : files * outcome :=
-  let o := run base (i_pid i) (i_repr i) (i_configured i) (i_branch i) (i_changes i) (i_transcript i) (i_pct i)
+  let o := sl_main base (i_pid i) (i_repr i) (i_configured i) (i_branch i) (i_changes i) (i_transcript i) (i_pct i)
                (i_mcp_local i) (i_mcp_cache i)
                (fun p => match f p with Some _ => Ok (i_age i) | None => Raise end)
                (fun p => match f p with Some s => Ok (univ_nl s) | None => Raise end)
